@@ -29,6 +29,7 @@ import (
 
 func TestMain(m *testing.M) {
 	pbt.RegisterReplay("seq", func(raw json.RawMessage) error { return replay(raw, 1) })
+	pbt.RegisterReplay("probe", func(raw json.RawMessage) error { return replay(raw, 1) })
 	// a concurrent failure depends on the schedule: give it some attempts
 	pbt.RegisterReplay("conc", func(raw json.RawMessage) error { return replay(raw, 12) })
 	pbt.Main(m, "C20")
@@ -205,16 +206,23 @@ type table struct {
 }
 
 var (
-	tblOnce sync.Once
-	tbl     table
-	tblErr  string
+	tblOnce      sync.Once
+	tbl          table
+	tblErr       string
+	tblViolation string
 )
 
 func classTable(t testing.TB) *table {
 	tblOnce.Do(func() {
 		o := runChild(&engine.Case{Mode: "probe"})
-		if o.violation != "" || o.inconclusive != "" {
-			tblErr = "probe child failed: " + o.violation + o.inconclusive
+		if o.violation != "" {
+			// the probe is a history of its own (Malloc(s) then Free, one record at a time, for every size from 0 up):
+			// an allocator that dies or misbehaves on it violates the property - report it as such
+			tblViolation = "size-class probe (Malloc(s) followed by Free, for every s from 0 to " + fmt.Sprint(engine.ProbeMax+1) + ", one record live at a time): " + o.violation
+			return
+		}
+		if o.inconclusive != "" {
+			tblErr = "probe child failed: " + o.inconclusive
 			return
 		}
 		tbl.bounds, tbl.maxShared = o.res.Bounds, o.res.MaxShared
@@ -230,6 +238,10 @@ func classTable(t testing.TB) *table {
 		pbt.Note("size classes derived by probing: %d shared (largest request %d), %d private rounding steps up to %d; boundaries %v",
 			len(tbl.shared), tbl.maxShared, len(tbl.bounds)-len(tbl.shared), engine.ProbeMax, tbl.bounds)
 	})
+	if tblViolation != "" {
+		pbt.Direct{Name: "probe"}.Fail(t, &engine.Case{Mode: "probe"}, "%s", tblViolation)
+		t.FailNow()
+	}
 	if tblErr != "" {
 		t.Fatalf("%s", tblErr)
 	}
